@@ -14,7 +14,7 @@ package runs
 
 //@ func (r *run) getLanguages
 //@   pure
-//@   reads run::session, run::flow, engine.session::contact, engine.session::env, engine.session::assets, engine.sessionAssets::locations, flows.LocationAssets::hierarchies, flows.Contact::language, definition.flow::language
+//@   reads run::session, run::flow, engine.session::contact, engine.session::env, engine.session::assets, engine.sessionAssets::locations, flows.LocationAssets::hierarchies, flows.Contact::language, definition.flow::language, flows.assetsEnvironment::*, flows.sessionEnvironment::*, flows.assetLocationResolver::locations, elems[assets.LocationHierarchy]
 //@   nopanic
 //@   requires RunRep(r)
 //@   let s := r.session.(*engine.session)
